@@ -14,8 +14,8 @@ EXTENDS Writer, ScanRead, Json, IOUtils
 
 Trace == ndJsonDeserialize(IOEnv.TRACE)
 
-VARIABLES l, w, run, drift
-vars == <<l, w, run, drift>>
+VARIABLES l, w, run, drift, hist      \* hist[i + 1]: the model writer after call i (hist[1]: after NewWriter), for the attachment-source replays
+vars == <<l, w, run, drift, hist>>
 
 NoW == [none |-> TRUE]
 NoRun == [id |-> "", live |-> FALSE, csizes |-> <<>>, tmax |-> 0, recs |-> <<>>]
@@ -61,12 +61,16 @@ Layout(recs) == [i \in DOMAIN recs |->
                    IF recs[i].k = "Chunk" THEN <<recs[i].k, recs[i].pos, recs[i].len, [j \in DOMAIN recs[i].inner |-> <<recs[i].inner[j].k, recs[i].inner[j].pos, recs[i].inner[j].len>>]>>
                    ELSE <<recs[i].k, recs[i].pos, recs[i].len>>]
 
-Init == l = 1 /\ w = NoW /\ run = NoRun /\ drift = <<>>
+Init == l = 1 /\ w = NoW /\ run = NoRun /\ drift = <<>> /\ hist = <<>>
 
 Next ==
   /\ l <= Len(Trace)
   /\ LET e == Trace[l] IN
      /\ l' = l + 1
+     /\ hist' = CASE e.ev = "Run" -> <<NewWriter(e.cfg, e.tmax)>>
+                  [] e.ev = "Call" /\ run.live -> Append(hist, IF e.ret = "ok" THEN StepCall(run, w, e) ELSE w)
+                  [] e.ev = "End" -> <<>>
+                  [] OTHER -> hist
      /\ CASE e.ev = "Run" -> /\ run' = [id |-> e.id, live |-> TRUE, csizes |-> e.csizes, tmax |-> e.tmax, recs |-> <<>>]
                              /\ w' = NewWriter(e.cfg, e.tmax) /\ UNCHANGED drift
           [] e.ev = "New" /\ run.live ->
@@ -89,6 +93,13 @@ Next ==
                /\ run' = [run EXCEPT !.recs = e.recs] /\ UNCHANGED w
           [] e.ev = "Scan" /\ run.live /\ run.recs # <<>> /\ e["end"] = "eof" ->
                /\ drift' = IF ScanAgrees(run.recs, run.tmax, e.msgs) THEN drift ELSE Append(drift, [line |-> l, id |-> run.id, what |-> <<"scan">>])
+               /\ UNCHANGED <<w, run>>
+          [] e.ev = "AttSrc" /\ "st" \in DOMAIN e /\ e.call <= Len(hist) ->
+               \* the same call sequence up to this attachment, whose source misbehaves: position and destination writes after the failed call
+               LET a == [log |-> e.a.log, create |-> e.a.create, name |-> e.a.name, media |-> e.a.media, dsize |-> e.a.dsize, data |-> e.a.data]
+                   p == WriteAttachmentSrc(hist[e.call], a, e.skind, e.sk)
+                   same == e.ret = "err" /\ p.pos = e.st.off /\ p.nw = e.st.nw /\ Len(p.attIdx) = e.st.nai /\ p.stats.atts = e.st.atts IN
+               /\ drift' = IF same THEN drift ELSE Append(drift, [line |-> l, id |-> run.id, what |-> <<"attsrc">>])
                /\ UNCHANGED <<w, run>>
           [] e.ev = "End" -> run' = NoRun /\ w' = NoW /\ UNCHANGED drift
           [] OTHER -> UNCHANGED <<w, run, drift>>
